@@ -85,7 +85,7 @@ def prepare(ctx, prop_name="regenerated:every span primitive of the grammar has 
 def correspond(ctx, texts, tag, minimum=50, timeout=900, label=None):
     """texts: [(kind, text)] with kind in pp / sv / svi / lib / libi"""
     gf = prepare(ctx)
-    label = label or "correspondence:regenerated grammar run by Peg.run (extracted) vs the real parser entry points: same trees, same verdicts"
+    label = label or "correspondence:regenerated grammar run by Peg.run (extracted) vs the real parser entry points: same trees, same verdicts, same thread-local state afterwards"
     if gf is None:
         ctx.obl(label, "correspondence", False, "the executable grammar could not be built")
         return
@@ -98,7 +98,7 @@ def correspond(ctx, texts, tag, minimum=50, timeout=900, label=None):
     B = 12
     icases, mcases = [], []
     for b in range(0, len(items), B):
-        ci, cm = Case("G%d" % b).add("want", "dbg"), Case("G%d" % b)
+        ci, cm = Case("G%d" % b).add("want", "dbg", "state"), Case("G%d" % b)
         for k, t in items[b:b + B]:
             ci.add("run", "raw", k, hx(t))
             cm.add("parse", START[k][0], CAP[k], hx(t))
@@ -115,18 +115,32 @@ def correspond(ctx, texts, tag, minimum=50, timeout=900, label=None):
     bad, agree, oks = None, 0, 0
     for b, (ci, cm) in enumerate(zip(icases, mcases)):
         chunk = items[b * B:(b + 1) * B]
-        il = [l for l in (impl.get(ci.id) or []) if l.split()[0] in ("ok", "err", "dbg", "panic")]
-        ml = [l for l in (model.get(cm.id) or []) if l.split()[0] in ("tree", "err", "fuel", "model-abort", "model-fail")]
-        real = []
+        il = [l for l in (impl.get(ci.id) or []) if l.split()[0] in ("ok", "err", "dbg", "panic", "state")]
+        mall = [l for l in (model.get(cm.id) or []) if l.split()[0] in ("tree", "err", "fuel", "model-abort", "model-fail", "state")]
+        ml = [l for l in mall if not l.startswith("state ")]
+        mstate = [l.strip() for l in mall if l.startswith("state ")]
+        real, rstate = [], []
         j = 0
         while j < len(il):
             w = il[j].split()
-            if w[0] == "ok" and j + 1 < len(il) and il[j + 1].startswith("dbg "):
+            if w[0] == "state":
+                rstate.append(il[j].strip())
+                j += 1
+            elif w[0] == "ok" and j + 1 < len(il) and il[j + 1].startswith("dbg "):
                 real.append(("ok", int(w[1].split("=")[1]), il[j + 1].split()[1]))
                 j += 2
             else:
                 real.append((w[0], None, None))
                 j += 1
+        if len(rstate) == len(chunk) and len(mstate) == len(chunk):
+            # the thread-local stacks left behind (IN_DIRECTIVE height, CURRENT_VERSION): equal after every parse, accepted or not
+            for (k, t), a, b2 in zip(chunk, rstate, mstate):
+                if a != b2:
+                    bad = bad or (k, t, "thread-local state after the parse: real %s, regenerated grammar %s" % (a, b2))
+                elif a != "state 0 []":
+                    ctx.count("peg_nonempty_final_state")
+        else:
+            bad = bad or (chunk[0][0], chunk[0][1], "batch %s: %d / %d state lines for %d texts" % (ci.id, len(rstate), len(mstate), len(chunk)))
         if len(real) != len(chunk) or len(ml) != len(chunk):
             bad = bad or (chunk[0][0], chunk[0][1], "batch %s: %d real results, %d model results for %d texts (%s)" % (
                 ci.id, len(real), len(ml), len(chunk), (ml[-1:] or il[-1:] or ["nothing"])[0][:120]))
